@@ -3,5 +3,5 @@
    inductive types. *)
 From Coq Require Import Extraction ExtrOcamlBasic ExtrOcamlNativeString.
 From NV Require Import Mech.Syntax Mech.Machine Mech.Spec.
-Extraction "c12_model.ml" sess_run sess_run_broken sess_step_gen empty_session count_blackholed count_locked
+Extraction "c12_model.ml" sess_run sess_run_broken sess_step_gen sess_step_satcopy empty_session count_blackholed count_locked
   defs_of spec_run spec_run_full spec_run_query squery top_senv sobs.
